@@ -15,7 +15,7 @@ from hyp import Violation
 
 PID = "C07"
 RULE = ("const source kinds {literal, const_var value, add_global_const, C++ object shared by const reference / const pointer / shared_ptr<const T>, "
-        "functions returning const T& / const T* / const T} x T in {int, double, string, Vector, Map, user class Cell} x alias chains of length 0-4 from "
+        "functions returning const T& / const T* / const T} x T in {integers of every literal spelling and width, bool, double/float/long double, string, Vector, Map, user class Cell} x alias chains of length 0-4 from "
         "{var &r = c, var r := c, parameter passing, lambda capture, return from function, bind, ranged-for variable, container insertion by reference} "
         "with optional copy steps (var x = c, clone(c)) x final mutator {every assignment operator, ++/--, mutating container/string members, attribute "
         "assignment, harness functions taking T&, T*, shared_ptr<T>}. Oracle: alias chain => the attempt raises and the C++ object (read through the "
@@ -24,8 +24,12 @@ RULE = ("const source kinds {literal, const_var value, add_global_const, C++ obj
 
 # source expression -> (type, snapshot key or None for literals)
 SOURCES = {
-    "int": [("5", None), ("k_cv_int", "cv_int"), ("k_gc_int", "gc_int"), ("k_i_ref", "i_ref"), ("k_i_ptr", "i_ptr"), ("k_i_sp", "i_sp"), ("ret_int_cref()", "i_ref"), ("(1 + 2)", None), ("-7", None)],
-    "dbl": [("2.5", None), ("k_cv_dbl", "cv_dbl"), ("k_d_ref", "d_ref")],
+    "int": [("5", None), ("k_cv_int", "cv_int"), ("k_gc_int", "gc_int"), ("k_i_ref", "i_ref"), ("k_i_ptr", "i_ptr"), ("k_i_sp", "i_sp"), ("ret_int_cref()", "i_ref"), ("(1 + 2)", None), ("-7", None),
+            # every spelling / width of integer literal (each is built by a different branch of the literal parser)
+            ("0x10", None), ("0b101", None), ("017", None), ("5u", None), ("5l", None), ("5ul", None), ("5ll", None), ("5ull", None), ("2147483648", None),
+            ("9223372036854775807", None), ("9223372036854775808", None), ("0xFFFFFFFFFFFFFF00", None), ("18446744073709551000", None), ("0x8000000000000000", None)],
+    "bool": [("true", None), ("false", None), ("(1 < 2)", None), ("!true", None)],
+    "dbl": [("2.5", None), ("k_cv_dbl", "cv_dbl"), ("k_d_ref", "d_ref"), ("1e3", None), ("2.5f", None), ("2.5l", None), ("-2.5", None), ("1.5e-3", None)],
     "str": [("\"lit\"", None), ("k_cv_str", "cv_str"), ("k_gc_str", "gc_str"), ("k_s_ref", "s_ref"), ("ret_str_cref()", "s_ref"), ("ret_str_cval()", None)],
     "vec": [("k_cv_vec", "cv_vec"), ("k_gc_vec", "gc_vec")],
     "map": [("k_cv_map", "cv_map")],
@@ -33,6 +37,7 @@ SOURCES = {
 }
 MUTATORS = {
     "int": ["X = 1", "X += 1", "X -= 1", "X *= 2", "X /= 2", "X %= 2", "X &= 1", "X |= 1", "X ^= 1", "X <<= 1", "X >>= 1", "++X", "--X", "mut_int_ref(X)", "mut_int_ptr(X)", "mut_int_sp(X)", "X := 3"],
+    "bool": ["X = false", "X = true", "X := false"],
     "dbl": ["X = 1.0", "X += 1.0", "X *= 2.0", "mut_dbl_ref(X)", "++X"],
     "str": ["X = \"n\"", "X += \"n\"", "X += 'c'", "X.push_back('c')", "X.clear()", "X.insert_at(0, 'i')", "X.erase_at(0)", "mut_str_ref(X)", "mut_str_ptr(X)", "X := \"zz\""],
     "vec": ["X.push_back(1)", "X.pop_back()", "X.clear()", "X.resize(1)", "X.resize(5, 0)", "X.insert_at(0, 1)", "X.erase_at(0)", "X = [9]", "mut_vec_ref(X)", "X.push_back_ref(1)", "X.reserve(10)"],
@@ -47,7 +52,7 @@ OPERATOR_LIKE = ("X =", "X +=", "X -=", "X *=", "X /=", "X %=", "X &=", "X |=", 
 
 @st.composite
 def cases(draw):
-    t = draw(st.sampled_from(["int", "int", "dbl", "str", "str", "vec", "map", "cell", "cell"]))
+    t = draw(st.sampled_from(["int", "int", "int", "dbl", "str", "str", "vec", "map", "cell", "cell", "bool"]))
     src, key = draw(st.sampled_from(SOURCES[t]))
     chain = draw(st.lists(st.sampled_from(ALIAS_STEPS + ALIAS_STEPS + COPY_STEPS), max_size=4))
     mut = draw(st.sampled_from(MUTATORS[t]))
